@@ -3,6 +3,7 @@ package kafka
 import (
 	"bytes"
 	"io"
+	"sync"
 	"time"
 )
 
@@ -196,4 +197,85 @@ func VH_E_ok_SleepYields() {
 	vhAssert(ran, "other-goroutines-run-while-one-sleeps")
 	time.Sleep(0)
 	vhReach("e-sleep")
+}
+
+// lock hand-off (vhHandoff): a lock / look / unlock retry loop makes progress because every Unlock yields
+func VH_E_ok_HandoffProgress() {
+	vhHandoff(true)
+	var mu sync.Mutex
+	flag, seen := false, false
+	go func() {
+		for i := 0; i < 1000; i++ {
+			mu.Lock()
+			f := flag
+			mu.Unlock()
+			if f {
+				seen = true
+				return
+			}
+		}
+	}()
+	go func() {
+		mu.Lock()
+		flag = true
+		mu.Unlock()
+	}()
+	vhRunAll()
+	vhRunAll()
+	vhAssert(seen, "retry-loop-sees-the-other-goroutines-update")
+	vhReach("e-handoff")
+}
+
+func VH_E_bad_HandoffInterleaves() {
+	vhHandoff(true)
+	var mu sync.Mutex
+	x, y := 0, 0
+	go func() {
+		mu.Lock()
+		x = 1
+		mu.Unlock()
+		y = x // the other goroutine ran at the Unlock above
+	}()
+	go func() {
+		mu.Lock()
+		x = 2
+		mu.Unlock()
+	}()
+	vhRunAll()
+	vhRunAll()
+	vhAssert(y == 1, "no-switch-at-unlock") // must be refuted
+}
+
+// the concrete clock moves on by the duration of a timer that fires
+func VH_E_ok_ClockAdvances() {
+	vhConcreteClock(true)
+	t0 := time.Now()
+	time.Sleep(5 * time.Second)
+	vhAssert(time.Since(t0) >= 5*time.Second, "sleep-takes-at-least-its-duration")
+	vhReach("e-clock")
+}
+
+func VH_E_bad_ClockStandsStill() {
+	vhConcreteClock(true)
+	t0 := time.Now()
+	time.Sleep(5 * time.Second)
+	vhAssert(time.Since(t0) < 5*time.Second, "clock-did-not-move") // must be refuted
+}
+
+// read-only guard: loads by repository code are fine, a store is reported
+func VH_E_ok_ReadonlyGuardLoad() {
+	c := &Conn{}
+	vhGuarded(c, "offset", "readonly")
+	vhGuardCheck(true)
+	c.Offset()
+	vhGuardCheck(false)
+	vhReach("e-readonly")
+}
+
+func VH_E_bad_ReadonlyGuardStore() {
+	rr := &RoundRobin{}
+	vhGuarded(rr, "counter", "readonly")
+	vhGuardCheck(true)
+	rr.Balance(Message{}, 0, 1) // stores to rr.counter: must be reported
+	vhGuardCheck(false)
 }
